@@ -669,7 +669,7 @@ class BlockBuilder:
         :type iterations: int, str, AnnotatedValue, or None
         """
 
-        builder = SubcircuitBlockBuilder()
+        builder = SubcircuitBlockBuilder(iterations)
         self.expression.append(builder.expression)
         return builder
 
